@@ -640,7 +640,7 @@ def gen_rechunk(tier, rng):
     # (leading, between any two chunks, trailing, several in a row) x every n_entries; n = 0 is the all-empty stream
     nmax_e, max_e = RECHUNK_EMPTY[tier]
     for n in range(0, nmax_e + 1):
-        for cuts in cuts_with_empties(n, max_e if n <= nmax_e - 1 else 1):
+        for cuts in cuts_with_empties(n, 1 if n == nmax_e else max_e - 1 if tier == "thorough" and n == nmax_e - 1 else max_e):
             for m in range(1, n + 2):
                 for fn in ("chunk_entries", "chunk_lines"):
                     datas = ("array", "dataclass") if n <= 3 else (("array",) if (m + len(cuts)) % 2 else ("dataclass",))
@@ -922,9 +922,9 @@ def gen_winmean(tier, rng):
                     continue      # all windows of width 4: that is op "values:mean"
                 for cuts in all_cuts(n):
                     # the windows' chunking: all for n <= 2, else the reads' cut set and the complementary one
-                    # (quick, 4 chromosomes: the complementary one only)
+                    # (4 chromosomes: the complementary one only)
                     c2s = list(all_cuts(n)) if n <= 2 else [cuts, [k for k in range(1, n) if k not in cuts]]
-                    for c2 in c2s[1 if quick and nchrom == 4 else 0:]:
+                    for c2 in c2s[1 if nchrom == 4 and n > 2 else 0:]:
                         i += 1
                         # width set and rotation: all combinations for the small cases, one or two (rotating) above (time)
                         combos = [(ws, rot) for ws in sorted(WIDTH_SETS) for rot in range(max(wcounts))]
@@ -1082,16 +1082,17 @@ def run(tier="quick", seed=0):
         "groupby keys": list(KEYKINDS),
         "chrommap n": "1..%d x all compositions" % (5 if quick else 7),
         "rechunk": "n 1..%d x n_entries 1..n+1 x {chunk_entries, chunk_lines} x {ndarray, dataclass}" % nm["rechunk"],
-        "rechunk with empty incoming chunks": "n 0..%d x all cuts x every multiset of 1..%d positions for empty chunks (n = %d: 1) "
+        "rechunk with empty incoming chunks": "n 0..%d x all cuts x every multiset of 1..%d positions for empty chunks (n = %d: 1%s) "
                                               "x n_entries 1..n+1 x {chunk_entries, chunk_lines}"
-                                              % (RECHUNK_EMPTY[tier][0], RECHUNK_EMPTY[tier][1], RECHUNK_EMPTY[tier][0]),
+                                              % (RECHUNK_EMPTY[tier][0], RECHUNK_EMPTY[tier][1], RECHUNK_EMPTY[tier][0],
+                                                 "" if quick else "; n = %d: 1..%d" % (RECHUNK_EMPTY[tier][0] - 1, RECHUNK_EMPTY[tier][1] - 1)),
         "bigcount": "numbers of counted values %s (block size of count_encoded: %d) x {count_kmers k=3%s, count_encoded flat, "
                     "count_encoded ragged axis=None} x {in-memory, one chunk, 5 chunks, 1 entry + rest, rest + 1 entry, 10%%+90%%, halves}"
                     % ([t for t, _ in BIG_TOTALS[tier]], BIG_BLOCK, "" if quick else " (k=5 on two datasets)"),
         "genomic mean over unequal windows": "1..4 chromosomes, 0..%d reads per chromosome, n <= %s; windows per chromosome = read counts "
                                              "or reversed, >= 2 windows on some chromosome; width sets %s x rotations (all for <= 2 "
                                              "chromosomes and small n, rotating above); windows' chunking: all cuts for n<=2, else same + "
-                                             "complementary; longest window shorter on one chromosome: %d datasets"
+                                             "complementary (4 chromosomes: complementary only); longest window shorter on one chromosome: %d datasets"
                                              % (winmean_bounds(tier)[0], winmean_bounds(tier)[1], sorted(WIDTH_SETS), 3 if quick else 6),
         "graph n": "1..%d" % nm["graph"], "graph ops": list(GRAPH_OPS),
         "genomic": "1..4 chromosomes, 0..%d entries per chromosome, n <= %s (by number of chromosomes); second stream: all cuts "
